@@ -306,6 +306,7 @@ struct Loc {
     hist: Vec<Msg>,
     base_ts: u64,
     seen: [u64; MAX_THREADS],
+    last_sc: u64,
     owner: i32,
     shared: bool,
 }
@@ -803,18 +804,10 @@ impl Sim {
                     }
                 }
                 Policy::Script { first, until_own, then } => {
-                    if self.threads.len() > first && self.threads[first].own_steps < until_own && order.contains(&first) {
+                    let _ = until_own;
+                    if order.contains(&first) {
                         first
                     } else {
-                        if self.threads.len() > first && !self.threads[first].frozen && self.threads[first].own_steps >= until_own && self.threads[first].state != TState::Finished {
-                            for i in 1..self.threads.len() {
-                                if i != then && self.threads[i].state != TState::Finished {
-                                    self.threads[i].frozen = true;
-                                }
-                            }
-                            count(C_FREEZE, 1);
-                            log(EV_FREEZE, first as u64, 3);
-                        }
                         let mut c = order[0];
                         for o in order {
                             if *o == then && !self.threads[*o].frozen {
@@ -895,6 +888,19 @@ impl Sim {
 
     /// Give the processor to somebody (maybe `me` again).  `me` may be non-runnable.
     fn reschedule(&mut self, me: usize) {
+        // forced-schedule fault of the sweeps: freeze everybody but `then` once `first` has made
+        // `until_own` own steps (a state change, so it must not depend on PRNG vs replay mode)
+        if let Policy::Script { first, until_own, then } = self.cfg.policy {
+            if self.threads.len() > first && !self.threads[first].frozen && self.threads[first].own_steps >= until_own && self.threads[first].state != TState::Finished {
+                for i in 1..self.threads.len() {
+                    if i != then && self.threads[i].state != TState::Finished {
+                        self.threads[i].frozen = true;
+                    }
+                }
+                count(C_FREEZE, 1);
+                log(EV_FREEZE, first as u64, 3);
+            }
+        }
         let mut cand = [0usize; MAX_THREADS];
         let k = self.candidates(&mut cand);
         if k == 0 {
@@ -1232,7 +1238,7 @@ impl Sim {
             self.next_loc += 1;
             self.locs.insert(
                 addr,
-                Loc { id, hist: Vec::with_capacity(HIST + 1), base_ts: 0, seen: [0; MAX_THREADS], owner: -1, shared: false },
+                Loc { id, hist: Vec::with_capacity(HIST + 1), base_ts: 0, seen: [0; MAX_THREADS], last_sc: 0, owner: -1, shared: false },
             );
         }
         self.locs.get_mut(&addr).unwrap()
@@ -1247,6 +1253,7 @@ impl Sim {
             l.hist.clear();
             l.base_ts = 0;
             l.seen = [0; MAX_THREADS];
+            l.last_sc = 0;
             l.owner = -1;
             l.shared = false;
         }
@@ -1268,10 +1275,6 @@ pub fn mm_load(addr: usize, ord: Ordering, current: u64) -> u64 {
     let s = sim();
     let me = s.cur;
     s.ensure_init(addr, current);
-    if ord == Ordering::SeqCst {
-        let scv = s.scv;
-        vc_join(&mut s.threads[me].vc, &scv);
-    }
     let wm = s.cfg.wm && !s.threads[me].spinning;
     let vc = s.threads[me].vc;
     let l = s.locs.get_mut(&addr).unwrap();
@@ -1280,6 +1283,10 @@ pub fn mm_load(addr: usize, ord: Ordering, current: u64) -> u64 {
     if wm && l.hist.len() > 1 {
         // oldest message this thread may still read
         let mut min_ts = l.seen[me].max(l.base_ts);
+        if ord == Ordering::SeqCst {
+            // an SC load never reads a write older than the last SC write to this location
+            min_ts = min_ts.max(l.last_sc);
+        }
         for (i, m) in l.hist.iter().enumerate() {
             let ts = l.base_ts + i as u64;
             if ts > min_ts && (m.writer == 255 || vc[m.writer as usize] >= m.wclock) {
@@ -1309,10 +1316,6 @@ pub fn mm_load(addr: usize, ord: Ordering, current: u64) -> u64 {
     if is_acq(ord) && m.has_rel {
         vc_join(&mut s.threads[me].vc, &m.rel);
     }
-    if ord == Ordering::SeqCst {
-        let vc = s.threads[me].vc;
-        vc_join(&mut s.scv, &vc);
-    }
     m.val
 }
 
@@ -1331,17 +1334,13 @@ pub fn mm_store(addr: usize, ord: Ordering, before: u64, newval: u64) {
     let s = sim();
     let me = s.cur;
     s.ensure_init(addr, before);
-    if ord == Ordering::SeqCst {
-        let scv = s.scv;
-        vc_join(&mut s.threads[me].vc, &scv);
-    }
     s.threads[me].vc[me] += 1;
     let vc = s.threads[me].vc;
     let m = Msg { val: newval, writer: me as u8, wclock: vc[me], has_rel: is_rel(ord), rel: if is_rel(ord) { vc } else { [0; MAX_THREADS] } };
     let l = s.locs.get_mut(&addr).unwrap();
     push_msg(l, me, m);
     if ord == Ordering::SeqCst {
-        vc_join(&mut s.scv, &vc);
+        l.last_sc = l.base_ts + l.hist.len() as u64 - 1;
     }
     s.write_clears_spin(me);
 }
@@ -1352,10 +1351,6 @@ pub fn mm_rmw(addr: usize, ord: Ordering, before: u64, newval: u64) {
     let s = sim();
     let me = s.cur;
     s.ensure_init(addr, before);
-    if ord == Ordering::SeqCst {
-        let scv = s.scv;
-        vc_join(&mut s.threads[me].vc, &scv);
-    }
     let prev = *s.locs.get(&addr).unwrap().hist.last().unwrap();
     if is_acq(ord) && prev.has_rel {
         vc_join(&mut s.threads[me].vc, &prev.rel);
@@ -1370,7 +1365,7 @@ pub fn mm_rmw(addr: usize, ord: Ordering, before: u64, newval: u64) {
     let l = s.locs.get_mut(&addr).unwrap();
     push_msg(l, me, m);
     if ord == Ordering::SeqCst {
-        vc_join(&mut s.scv, &vc);
+        l.last_sc = l.base_ts + l.hist.len() as u64 - 1;
     }
     s.write_clears_spin(me);
 }
@@ -1381,20 +1376,12 @@ pub fn mm_cas_fail(addr: usize, ord: Ordering, current: u64) {
     let s = sim();
     let me = s.cur;
     s.ensure_init(addr, current);
-    if ord == Ordering::SeqCst {
-        let scv = s.scv;
-        vc_join(&mut s.threads[me].vc, &scv);
-    }
     let l = s.locs.get_mut(&addr).unwrap();
     let latest = l.base_ts + l.hist.len() as u64 - 1;
     l.seen[me] = latest;
     let m = *l.hist.last().unwrap();
     if is_acq(ord) && m.has_rel {
         vc_join(&mut s.threads[me].vc, &m.rel);
-    }
-    if ord == Ordering::SeqCst {
-        let vc = s.threads[me].vc;
-        vc_join(&mut s.scv, &vc);
     }
 }
 
